@@ -142,8 +142,8 @@ func Discharge(o *Obligation, timeoutS int, allSolvers bool) *Result {
 	}
 	// stage 1: the first solver alone with a short budget (decides almost everything)
 	short := timeoutS
-	if short > 8 {
-		short = 8
+	if short > 4 {
+		short = 4
 	}
 	ans, out, secs := runSolver(Solvers[0], short, f.Name())
 	r.Seconds += secs
